@@ -219,6 +219,16 @@ pub fn abort_with_violation() -> ! {
     std::process::exit(if code == 0 { 3 } else { code });
 }
 
+pub fn abort_after_panic() -> ! {
+    let code = finish();
+    let harness = HARNESS_PANICS.load(Relaxed);
+    if harness > 0 && code == 0 {
+        eprintln!("HARNESS-ERROR: a worker died from a panic in harness code");
+        std::process::exit(4);
+    }
+    std::process::exit(if code == 0 { 3 } else { code });
+}
+
 fn install_panic_hook() {
     std::panic::set_hook(Box::new(|info| {
         if info.payload().downcast_ref::<InjectedPanic>().is_some() {
@@ -243,6 +253,7 @@ fn install_panic_hook() {
                 }
             });
             crate::viol::report("C13", "crate-panic", text);
+            crate::viol::POISONED.store(true, Relaxed);
         } else {
             HARNESS_PANICS.fetch_add(1, Relaxed);
             eprintln!("HARNESS-PANIC '{}' at {} (thread {})", msg, loc, sched::tid());
